@@ -317,6 +317,11 @@ class ITPDirector(SectionLineParser):
                 atoms.append([tokens[idx], {}])
                 remove.append(idx)
             elif isinstance(idx, slice):
+                if (idx.stop is not None and idx.stop >= 0
+                        and len(tokens[idx]) < len(range(idx.start or 0, idx.stop, idx.step or 1))):
+                    # A bounded slice must be filled completely: the line
+                    # has fewer atoms than the interaction requires.
+                    raise IOError('Not enough atoms on the interaction line.')
                 atoms += [[atom, {}] for atom in tokens[idx]]
                 idx_range = range(0, len(tokens))
                 remove += idx_range[idx]
